@@ -14,31 +14,35 @@ pub struct Plan {
 
 pub fn plans(id: &str) -> Vec<Plan> {
     match id {
-        "C01" => vec![Plan { check: Box::new(pd::C01 { focus: pd::Focus::General, id: "C01" }), quick: 6_000, thorough: 300_000 }],
-        "C02" => vec![Plan { check: Box::new(ps::C02), quick: 30_000, thorough: 1_500_000 }],
+        "C01" => vec![Plan { check: Box::new(pd::C01 { focus: pd::Focus::General, id: "C01" }), quick: 40_000, thorough: 1_500_000 }],
+        "C02" => vec![Plan { check: Box::new(ps::C02), quick: 60_000, thorough: 3_000_000 }],
         "C03" => vec![
-            Plan { check: Box::new(ps::C03Static), quick: 30_000, thorough: 1_000_000 },
-            Plan { check: Box::new(pd::C03Dynamic), quick: 6_000, thorough: 200_000 },
+            Plan { check: Box::new(ps::C03Static), quick: 40_000, thorough: 2_000_000 },
+            Plan { check: Box::new(pd::C03Dynamic), quick: 20_000, thorough: 800_000 },
         ],
-        "C04" => vec![Plan { check: Box::new(ps::C04), quick: 30_000, thorough: 1_500_000 }],
-        "C05" => vec![Plan { check: Box::new(ps::C05Static), quick: 20_000, thorough: 1_000_000 }],
+        "C04" => vec![Plan { check: Box::new(ps::C04), quick: 60_000, thorough: 3_000_000 }],
+        "C05" => vec![
+            Plan { check: Box::new(ps::C05Static), quick: 40_000, thorough: 2_000_000 },
+            Plan { check: Box::new(pm::C05Defaults), quick: 10_000, thorough: 200_000 },
+            Plan { check: Box::new(pm::C05Prologue), quick: 4_000, thorough: 150_000 },
+        ],
         "C06" => vec![
-            Plan { check: Box::new(crate::props_c06::C06Static), quick: 30_000, thorough: 1_500_000 },
-            Plan { check: Box::new(pd::C01 { focus: pd::Focus::Reentrancy, id: "C06" }), quick: 4_000, thorough: 200_000 },
+            Plan { check: Box::new(crate::props_c06::C06Static), quick: 60_000, thorough: 3_000_000 },
+            Plan { check: Box::new(pd::C01 { focus: pd::Focus::Reentrancy, id: "C06" }), quick: 15_000, thorough: 600_000 },
         ],
         "C07" => vec![
-            Plan { check: Box::new(pm::C07Static), quick: 20_000, thorough: 1_000_000 },
-            Plan { check: Box::new(pd::C01 { focus: pd::Focus::Strictness, id: "C07" }), quick: 3_000, thorough: 150_000 },
+            Plan { check: Box::new(pm::C07Static), quick: 40_000, thorough: 2_000_000 },
+            Plan { check: Box::new(pd::C01 { focus: pd::Focus::Strictness, id: "C07" }), quick: 10_000, thorough: 500_000 },
         ],
-        "C08" => vec![Plan { check: Box::new(pm::C08), quick: 8_000, thorough: 400_000 }],
-        "C09" => vec![Plan { check: Box::new(crate::props_map::C09), quick: 20_000, thorough: 1_000_000 }],
-        "C10" => vec![Plan { check: Box::new(crate::props_map::C10), quick: 10_000, thorough: 500_000 }],
-        "C11" => vec![Plan { check: Box::new(crate::props_c11::C11), quick: 3_000, thorough: 100_000 }],
-        "C12" => vec![Plan { check: Box::new(pm::C12), quick: 30_000, thorough: 1_000_000 }],
-        "C13" => vec![Plan { check: Box::new(pm::C13), quick: 40_000, thorough: 2_000_000 }],
-        "C14" => vec![Plan { check: Box::new(crate::props_c14::C14), quick: 20_000, thorough: 1_000_000 }],
-        "C15" => vec![Plan { check: Box::new(pm::C15), quick: 20_000, thorough: 1_000_000 }],
-        "C16" => vec![Plan { check: Box::new(pm::C16), quick: 3_000, thorough: 100_000 }],
+        "C08" => vec![Plan { check: Box::new(pm::C08), quick: 30_000, thorough: 1_500_000 }],
+        "C09" => vec![Plan { check: Box::new(crate::props_map::C09), quick: 40_000, thorough: 2_000_000 }],
+        "C10" => vec![Plan { check: Box::new(crate::props_map::C10), quick: 30_000, thorough: 1_500_000 }],
+        "C11" => vec![Plan { check: Box::new(crate::props_c11::C11), quick: 15_000, thorough: 600_000 }],
+        "C12" => vec![Plan { check: Box::new(pm::C12), quick: 40_000, thorough: 2_000_000 }],
+        "C13" => vec![Plan { check: Box::new(pm::C13), quick: 100_000, thorough: 5_000_000 }],
+        "C14" => vec![Plan { check: Box::new(crate::props_c14::C14), quick: 60_000, thorough: 3_000_000 }],
+        "C15" => vec![Plan { check: Box::new(pm::C15), quick: 60_000, thorough: 3_000_000 }],
+        "C16" => vec![Plan { check: Box::new(pm::C16), quick: 20_000, thorough: 800_000 }],
         _ => vec![],
     }
 }
